@@ -101,19 +101,26 @@ class Server:
                 self.pending.setdefault(target, []).append([key])
 
     def pending_keys(self, client_id):
-        return [k for msg in self.pending.get(client_id, []) for k in msg]
+        return [k for msg in self.pending.get(client_id, []) if isinstance(msg, list) for k in msg]
 
     def deliver(self, client_id, n=None):
         """Harness-scheduled step: hand the first n (default all) queued invalidation messages of
-        `client_id` to its subscriber.  Returns the number delivered."""
+        `client_id` to its subscriber (messages PUBLISHed to the channel by other clients that are
+        queued before them go along and are not counted).  A handler that raises kills the
+        listener, as it kills the thread running `pubsub.listen()`: later messages are lost.
+        Returns the number of invalidation messages taken off the queue."""
         q = self.pending.get(client_id, [])
         cnt = 0
-        while q and (n is None or cnt < n):
+        while q and (n is None or cnt < n or not isinstance(q[0], list)):
             msg = q.pop(0)
             ps = self.pubsubs.get(client_id)
-            if ps is not None:
-                ps._dispatch(b"__redis__:invalidate", list(msg))
-            cnt += 1
+            if ps is not None and ps.dead is None:
+                try:
+                    ps._dispatch(b"__redis__:invalidate", list(msg) if isinstance(msg, list) else msg)
+                except Exception as e:          # noqa
+                    ps.dead = "%s: %s" % (type(e).__name__, e)
+            if isinstance(msg, list):
+                cnt += 1
         return cnt
 
     def advance(self, seconds):
@@ -129,7 +136,10 @@ class Server:
         n = 0
         for ps in list(self.pubsubs.values()):
             if channel in ps.channels:
-                ps._dispatch(channel, data)
+                if ps.channels[channel] is None:
+                    ps._dispatch(channel, data)          # unblocks listen()
+                else:                                    # reaches the handler when the harness delivers
+                    self.pending.setdefault(ps.cid, []).append(data)
                 n += 1
         return n
 
@@ -288,6 +298,7 @@ class PubSub:
         self.cid = None
         self.channels = {}      # channel bytes -> handler | None
         self.queue = []
+        self.dead = None        # set when a handler raised: the listener thread would have died
         self.wake = threading.Event()
 
     def subscribe(self, *args, **kwargs):
